@@ -193,7 +193,7 @@ def build(repo):
         tainted = class_alias_closure([r["prog"] for r in ms], args, tr.params)
         tainted_attrs = sorted(t for t in tainted if t.startswith("self."))
         for r in ms:
-            r["borrowed"] = sorted(set(r["args"]) | set(tainted_attrs))
+            r["borrowed"] = sorted(set(r["args"]) | set(tainted_attrs) | {sk.COPY_OPT_OUT})
             if r["method"] in FIT_METHODS:
                 r["returns_self"], r["returns"] = returns_self(uni, c, r["method"])
         out.append({"class": c, "module": uni.classes[c][0], "params": tr.params, "methods": ms,
@@ -273,6 +273,10 @@ def observers_required(fit_prog, observer_progs):
         for a in sk.atoms(p):
             if a[0] in ("wattr", "dattr"):
                 written.add(a[1])
+            elif a[0] == "mutate" and a[1].startswith("self."):
+                # `self.a[k] = v`, `self.a.append(v)`: the attribute holds state that is modified in place;
+                # unless fit rebinds it first, what an earlier fit stored there survives
+                written.add(a[1][5:])
     req = []
     for p in observer_progs:
         for a in sk.atoms(p):
